@@ -26,6 +26,10 @@ class _Infeasible(Exception):
     pass
 
 
+class _EmptySource(Exception):
+    """a comprehension / loop over the empty list display"""
+
+
 class _Raised(Exception):
     def __init__(self, what):
         self.what = what
@@ -358,7 +362,7 @@ class Summariser:
         if s == f"isinstance({on}, Term) and len({on}.components) == 1":
             return [(self.rcls == "Term", "OTHER is a single component" if self.rcls == "Term" else None)]
         if s == "isinstance(value, int) and value >= 1":
-            return [(True, "n is a positive integer")]
+            return [(True, "n is a positive integer"), (False, "n is not a positive integer")]
         if s == "len(c) == 1 and isinstance(c[0].name, int) and (c[0].name >= 1)":
             return [(True, "n is a positive integer"), (False, "n is not a positive integer")]
         raise AnalysisError(f"algebra: unmodelled condition `{s}` in {self.fn.qual}")
@@ -409,6 +413,9 @@ class Summariser:
                 return Val("notimpl")
             if n.id in env:
                 return env[n.id]
+            if any(isinstance(x, ast.Name) and x.id == n.id and isinstance(x.ctx, ast.Store) for x in ast.walk(self.fn.node)):
+                # a local of the function that no statement on this path has bound: reading it raises
+                raise _Raised("UnboundLocalError")
             raise AnalysisError(f"algebra: unbound name `{n.id}` in {self.fn.qual}")
         if isinstance(n, ast.Constant):
             return Val("const", value=n.value)
@@ -502,7 +509,10 @@ class Summariser:
                 return Val("delegate", left=l, right=r, op="|")
             return self._nested_operator(n, l, r)
         if isinstance(n, (ast.ListComp, ast.GeneratorExp)):
-            return self._comprehension(n, env)
+            try:
+                return self._comprehension(n, env)
+            except _EmptySource:
+                return Val("list", items=[])
         raise AnalysisError(f"algebra: unmodelled expression `{unparse(n)[:70]}` in {self.fn.qual}")
 
     NESTED = {ast.MatMult: "__matmul__", ast.Mult: "__mul__", ast.Div: "__truediv__", ast.Pow: "__pow__"}
@@ -559,6 +569,8 @@ class Summariser:
 
     def _source_binder(self, v, var):
         """binder string for iterating over list value v with variable var; returns (binder or None, elem Val)"""
+        if v.kind == "list" and not v.items:
+            raise _EmptySource()
         if v.kind == "listsym":
             return f"{var} in {v.sym}", Val("elem", name=var, cls="?")
         if v.kind == "list" and len(v.items) == 1 and v.items[0].kind in ("term", "I", "N", "gst", "elem"):
@@ -624,6 +636,12 @@ class Summariser:
                 e2[tv] = Val("elem", name=tv, pair=pair)
                 elt = self._expr(n.elt, e2)
                 return Val("family", template=self.elem_key(elt), binders=binders)
+            if src.kind == "combos" and getattr(src, "of", "terms") == "components":
+                # combinations of COMPONENTS (not of terms): each combination is itself a component sequence
+                e2 = dict(env)
+                e2[tv] = Val("complist", parts=["each of combo"], sym=None)
+                elt = self._expr(n.elt, e2)
+                return Val("family", template=self.elem_key(elt), binders=[src.binder])
             if src.kind == "combos":
                 e2 = dict(env)
                 e2[tv] = Val("elem", name="combo", cls="combo")
@@ -671,7 +689,11 @@ class Summariser:
             rng = "range(" + ", ".join(parts) + ")"
             src = self._expr(gens[1].iter.args[0], env)
             size = unparse(gens[1].iter.args[1])
-            if src.kind != "listsym" or size != unparse(gens[0].target) or unparse(n.elt) not in (f"list({unparse(gens[1].target)})", unparse(gens[1].target)):
+            if size != unparse(gens[0].target) or unparse(n.elt) not in (f"list({unparse(gens[1].target)})", unparse(gens[1].target)):
+                raise AnalysisError(f"algebra: unmodelled combinations idiom `{unparse(n)}`")
+            if src.kind == "complist" and getattr(src, "sym", None):
+                return Val("combos", binder=f"combo in combinations({src.sym}, k), k in {rng}", of="components")
+            if src.kind != "listsym":
                 raise AnalysisError(f"algebra: unmodelled combinations idiom `{unparse(n)}`")
             return Val("combos", binder=f"combo in combinations({src.sym}, k), k in {rng}")
         raise AnalysisError(f"algebra: unmodelled comprehension `{unparse(n)[:80]}` in {self.fn.qual}")
